@@ -41,6 +41,7 @@ func runC03(c *Ctx) {
 	rulePairs(c, p, "C03.R6")
 	boardCopyRule(c, p, "C03.R7")
 	c03R8(c, p)
+	c03R9(c, p)
 }
 
 // boardWrites: Board fields stored by fn and its callees inside package board.
